@@ -737,12 +737,14 @@ def gen_c02(rng, cid, big=False):
             h = rand_hdr(rng)
             f = frame_of(h, [rand_msg(rng, h['mt']) for _ in range(rng.range(1, 6))])
         frames.append(f)
+        if rng.chance(1, 15):
+            frames.append(None)        # decode(nullptr, n)
     if big:
         # 64 KiB buffers: many small messages, one big message, random
         h = rand_hdr(rng)
         frames = [frame_of(h, [msg(1, 2, 0, 0x7E, rng.bytes(4)) for _ in range(3270)]), frame_of(h, [msg(1, 2, 0, 0x7E, rng.bytes(65500))]), rng.bytes(65536),
                   bytes([0]) + rng.bytes(65535)]
-    return Case(cid, [feed_line(1, f) for f in frames], dict(frames=frames))
+    return Case(cid, [feed_line(1, f) if f is not None else 'DNULL 1 %d' % rng.choice([0, 8, 100]) for f in frames], dict(frames=[f if f is not None else b'' for f in frames]))
 
 def judge_c02(case, lines):
     an = anomalies(lines)
